@@ -161,6 +161,59 @@ def directed_pair_family(rng, max_nodes, engines=("sync", "async"), sample=None,
 # generic flow
 # --------------------------------------------------------------------------
 
+def nested_parallel_family(rng, n, engines=("sync", "async")):
+    """A parallel state one of whose regions holds a nested parallel state with 2-4 sub-regions (equal-depth leaves
+    with exit and entry markers), left by transitions whose domain is the OUTER parallel state: declared on it and
+    targeting a descendant inside a region, across regions, and out of it altogether."""
+    from harness.am import Node
+    cases = []
+    for i in range(n):
+        tid = itertools.count(1)
+        mark = itertools.count(1)
+        nodes = [Node(0, "m", None, "compound")]
+
+        def add(parent, key, kind):
+            x = Node(len(nodes), key, parent, kind)
+            nodes.append(x)
+            nodes[parent].children.append(x.idx)
+            x.entry = [("mark", next(mark))]
+            x.exit = [("mark", next(mark))]
+            return x.idx
+        p = add(0, "p", "parallel")
+        out_ = add(0, "out", "atomic")
+        nodes[0].initial = p
+        r1 = add(p, rng.choice(["r1", "zr"]), "compound")
+        r2 = add(p, rng.choice(["r2", "ar"]), "compound")
+        inner = add(r1, rng.choice(["n", "zn"]), "parallel")
+        alt = add(r1, "alt", "atomic")
+        nodes[r1].initial = inner
+        subs = []
+        keys = rng.sample(["s1", "s2", "zs", "as", "s10", "b"], rng.choice([2, 3, 4]))
+        for k in keys:
+            sr = add(inner, k, "compound")
+            leaf = add(sr, rng.choice(["x", "ax", "zx"]), "atomic")
+            nodes[sr].initial = leaf
+            subs.append((sr, leaf))
+        y = add(r2, "y", "atomic")
+        y2 = add(r2, "y2", "atomic")
+        nodes[r2].initial = y
+        am = AM(nodes, max_iter=10)
+        nodes[p].on.append(("T", [Trans(next(tid), p, "T", alt)]))                 # declared on p, into region r1
+        nodes[p].on.append(("U", [Trans(next(tid), p, "U", y2)]))                  # declared on p, into region r2
+        nodes[subs[0][1]].on.append(("X", [Trans(next(tid), subs[0][1], "X", y2)]))  # across regions
+        nodes[y].on.append(("W", [Trans(next(tid), y, "W", alt)]))                 # across regions, the other way
+        nodes[0].on.append(("OUT", [Trans(next(tid), 0, "OUT", out_)]))
+        nodes[0].on.append(("IN", [Trans(next(tid), 0, "IN", p)]))
+        nodes[alt].on.append(("BACK", [Trans(next(tid), alt, "BACK", inner)]))
+        evs = ["T", "U", "X", "W", "OUT", "IN", "BACK"]
+        runs = []
+        for _ in range(3):
+            seq = [rng.choice(evs) for _ in range(rng.randint(2, 5))]
+            runs.append(({}, [(e, "plain", j + 1) for j, e in enumerate(seq)]))
+        cases.append((am, engines[i % len(engines)], runs, None))
+    return cases
+
+
 def case_payload(am, engine, cx, events, opts=None):
     import base64, pickle
     return dict(config=_jsonable(am.to_config(**{k: v for k, v in (opts or {}).items() if k not in ('probe_can', 'hook_faults')})), engine=engine, ctx=cx, events=[list(e) for e in events],
